@@ -37,7 +37,14 @@ confirm)
   SRC=/tmp/seedout-$ID/$V
   cd $R && git checkout -q -- . && git clean -fdq -e target >/dev/null 2>&1
   git apply --check $SRC/patch.diff || { echo "RESULT $ID/$V patch-does-not-apply"; python3 -c "import json;json.dump({'seed':'$ID-$V','applies':False},open('$L/results/${ID}_$V.json','w'))"; exit 3; }
-  if [ "$KIND" = storm ]; then
+  if [ -f $SRC/demo.sh ] && [ ! -f $SRC/demo.rs ]; then
+    # shell demonstration taking the CLI binary as its argument
+    ( cd $R && cargo build -p warcraft-rs --offline >/dev/null 2>&1 )
+    T0=$(cd $L && timeout 300 bash $SRC/demo.sh $R/target/debug/warcraft-rs 2>&1 | tail -1; echo "exit=${PIPESTATUS[0]}")
+    git apply $SRC/patch.diff
+    ( cd $R && cargo build -p warcraft-rs --offline >/dev/null 2>&1 )
+    T1=$(cd $L && timeout 300 bash $SRC/demo.sh $R/target/debug/warcraft-rs 2>&1 | tail -1; echo "exit=${PIPESTATUS[0]}")
+  elif [ "$KIND" = storm ]; then
     ( cd $R && cargo build -p storm-ffi --offline >/dev/null 2>&1 )
     rustc --edition 2021 $SRC/demo.rs -L $R/target/debug -l dylib=storm -o $L/demo_$ID$V 2>/dev/null
     T0=$(cd $L && LD_LIBRARY_PATH=$R/target/debug timeout 120 $L/demo_$ID$V 2>&1 | tail -1; echo "exit=${PIPESTATUS[0]}")
